@@ -1,8 +1,9 @@
 """C09 — faults arrive intact, are classified correctly and never leak internals.
 
-Drives the real Spyne code (WsgiApplication, ServerBase, and a loopback client built on
-spyne.client.RemoteProcedureBase) with generated faults / exceptions raised from five eager
-sites and two lazy (generator) sites under eight output protocols, and
+Drives the real Spyne code (WsgiApplication served chunked and unchunked, ServerBase, and a loopback
+client built on spyne.client.RemoteProcedureBase) with generated faults / exceptions raised from
+five eager sites and two generator sites (before / after the first item; for HttpRpc the generator
+is a streamed ByteArray) under eight output protocols, and
 
 * compares status + parsed response document with the Coq model (coq/C09/Model.v), case by case;
 * compares the Coq reference decoders / client parsers with the Python ones on the real bytes;
@@ -14,11 +15,12 @@ from lib import gz, gtext, glist, gopt
 
 THEOREMS = [
     'C09_response_determined_by_first_raise', 'C09_no_return_on_fault', 'C09_no_leak',
-    'C09_fault_reported', 'C09_status_table', 'C09_builtin_classes_classified',
+    'C09_fault_reported', 'C09_streamed_response', 'C09_streaming_refuted',
+    'C09_status_table', 'C09_builtin_classes_classified',
     'C09_fault_intact_dict', 'C09_fault_intact_xml11', 'C09_fault_intact_soap12',
     'C09_fault_intact_httprpc_partial', 'C09_httprpc_detail_refuted', 'C09_xml_unrepresentable_refuted',
-    'C09_generator_first_item_refuted', 'C09_loopback_soap11', 'C09_loopback_msgpackrpc',
-    'C09_loopback_soap12_partial', 'C09_loopback_soap12_strip_refuted',
+    'C09_loopback_soap11', 'C09_loopback_msgpackrpc',
+    'C09_loopback_soap12_partial', 'C09_loopback_soap12_stripped', 'C09_loopback_soap12_strip_refuted',
 ]
 
 PROTS = ['PSoap11', 'PSoap12', 'PXml', 'PJson', 'PYaml', 'PMsgpack', 'PMsgpackRpc', 'PHttpRpc']
@@ -26,7 +28,7 @@ XML_PROTS = ('PSoap11', 'PSoap12', 'PXml')
 SOAP_PROTS = ('PSoap11', 'PSoap12')
 LOOP_PROTS = ('PSoap11', 'PSoap12', 'PMsgpackRpc')
 EAGER_SITES = ['body', 'call_app', 'call_svc', 'ret_app', 'ret_svc']
-LAZY_SITES = ['gen_later']
+LAZY_SITES = ['gen_later', 'gen_first']
 MARKER_FN = 'c09_marker_function_name'
 IMPORTS = 'From SpyneV Require Import Base.Prelude Gen.FaultTables C09.Model C09.Obs.'
 
@@ -51,7 +53,7 @@ class World(object):
     """An application whose user code (method bodies and event listeners) does what self.box says."""
 
     def __init__(self, pname, in_kind):
-        from spyne import Application, rpc, Service, Unicode, Iterable
+        from spyne import Application, rpc, Service, Unicode, Iterable, ByteArray
         from spyne.protocol.http import HttpRpc
         from spyne.protocol.json import JsonDocument
         box = self.box = {}
@@ -78,6 +80,14 @@ class World(object):
                 yield box['retval']
                 fire('gen_later')
 
+            # HttpRpc serialises primitives only: its generator-valued result is a ByteArray whose
+            # chunks are produced lazily (the documented way of streaming a response)
+            @rpc(Unicode, _returns=ByteArray)
+            def stream(ctx, s):
+                fire('gen_first')
+                yield box['retval'].encode('utf8')
+                fire('gen_later')
+
         C09Service.event_manager.add_listener('method_call', lambda ctx: fire('call_svc'))
         C09Service.event_manager.add_listener('method_return_object', lambda ctx: fire('ret_svc'))
         P = prot_class(pname)
@@ -93,10 +103,15 @@ class World(object):
             self.box[site] = maker
 
     # -- transports
-    def wsgi(self, method):
+    def wsgi_app(self, chunked):
         from spyne.server.wsgi import WsgiApplication
         if not hasattr(self, '_wsgi'):
-            self._wsgi = WsgiApplication(self.app)
+            self._wsgi = {}
+        if chunked not in self._wsgi:
+            self._wsgi[chunked] = WsgiApplication(self.app, chunked=chunked)
+        return self._wsgi[chunked]
+
+    def wsgi(self, method, chunked=True):
         st = {}
 
         def start_response(status, headers, exc_info=None):
@@ -106,14 +121,27 @@ class World(object):
                'wsgi.input': io.BytesIO(b''), 'SERVER_NAME': 'h', 'SERVER_PORT': '80',
                'wsgi.url_scheme': 'http', 'CONTENT_TYPE': ''}
         try:
-            body = b''.join(self._wsgi(env, start_response))
+            it = self.wsgi_app(chunked)(env, start_response)
         except Exception as e:
             return ('escape', e, st.get('status'))
+        chunks = []
+        try:
+            try:
+                for c in it:
+                    chunks.append(c)
+            finally:
+                if hasattr(it, 'close'):
+                    it.close()
+        except Exception as e:
+            if 'status' in st:
+                # the response iterable raised after start_response: status line and these chunks are sent
+                return ('partial', st['status'], st['headers'], b''.join(chunks), e)
+            return ('escape', e, None)
         if 'status' not in st:
             return ('escape', RuntimeError('start_response never called'), None)
-        return ('ok', st['status'], st['headers'], body)
+        return ('ok', st['status'], st['headers'], b''.join(chunks))
 
-    def server(self, method):
+    def server(self, method, chunked=True):
         """ServerBase driven directly (JSON request document)"""
         from spyne.server import ServerBase
         from spyne.context import MethodContext
@@ -136,13 +164,10 @@ class World(object):
             return ('escape', e, None)
         return ('ok', None, [], body)
 
-    def loopback(self, method):
+    def loopback(self, method, chunked=True):
         """Spyne's own client, its transport replaced by a direct call of the WSGI application"""
         from spyne.client import RemoteProcedureBase, RemoteService
-        from spyne.server.wsgi import WsgiApplication
-        if not hasattr(self, '_wsgi'):
-            self._wsgi = WsgiApplication(self.app)
-        wsgi, res = self._wsgi, {}
+        wsgi, res = self.wsgi_app(chunked), {}
 
         class Proc(RemoteProcedureBase):
             def __call__(self, *args, **kwargs):
@@ -691,7 +716,7 @@ def fault_representable(pname, e):
         if not (xml_ok_text(e.faultcode) and xml_ok_text(e.faultstring) and xml_ok_text(e.faultactor)
                 and xml_ok_text(e.lang) and xml_ok_detail(e.detail)):
             return 'xml-unrepresentable-content'
-    if pname == 'PHttpRpc' and '\n\n' in e.faultcode:
+    if pname == 'PHttpRpc' and '\n\n' in e.faultcode + '\n':
         return 'httprpc-blank-line-in-code'
     return None
 
@@ -711,6 +736,12 @@ def site_class(site):
 
 
 # ------------------------------------------------------------------ one case through one transport
+def method_for(pname, site):
+    if site in ('gen_later', 'gen_first', 'gen_none'):
+        return 'stream' if pname == 'PHttpRpc' else 'lazy'
+    return 'plain'
+
+
 class Runner(object):
     def __init__(self, check):
         self.check = check
@@ -731,16 +762,17 @@ class Runner(object):
         """case: {'prot','site','kind': 'fault'|'exn'|'none','spec', 'retval'}"""
         pname, site, kind, spec = case['prot'], case['site'], case['kind'], case['spec']
         retval = case['retval']
-        method = 'lazy' if site in ('gen_later', 'gen_first', 'gen_none') else 'plain'
+        chunked = case.get('chunked', True)
+        method = method_for(pname, site)
         maker = None if kind == 'none' else (lambda: build_fault(spec)) if kind == 'fault' else (lambda: build_exn(spec))
         results = {}
         for tr in transports:
             w = self.world(pname, {'wsgi': 'http', 'server': 'json', 'loopback': 'same'}[tr])
             w.arm(None if kind == 'none' else site, maker, retval)
-            res = getattr(w, tr)(method)
+            res = getattr(w, tr)(method, chunked)
             raised = w.box.get('raised')
             results[tr] = (res, raised)
-            self.check.count((tr, pname, site, kind, json.dumps(spec, sort_keys=True, default=repr)))
+            self.check.count((tr, pname, site, kind, chunked, json.dumps(spec, sort_keys=True, default=repr)))
             self.stat('%s/%s/%s' % (tr, kind, site_class(site) if kind != 'none' else 'return'))
             if kind != 'none' and raised is None:
                 self.check.mismatch('harness', 'the armed site %s never ran (%s, %s)' % (site, pname, tr))
@@ -763,12 +795,20 @@ class Runner(object):
         except Unprintable as e:
             self.check.mismatch('harness', 'cannot print case: %s' % e)
             return
-        desc = '%s %s %s %s' % (tr, pname, site, json.dumps(spec, default=repr, ensure_ascii=True)[:300])
+        chunked = case.get('chunked', True)
+        desc = '%s %s %s %s %s' % (tr, pname, 'chunked' if chunked else 'unchunked', site,
+                                   json.dumps(spec, default=repr, ensure_ascii=True)[:300])
         if res[0] == 'harness':
             self.check.mismatch('harness', res[1])
             return
         if res[0] == 'escape':
             obs, wire = '(Crash %s)' % crash_class(res[1], raised), None
+        elif res[0] == 'partial':
+            # start_response was called, these bytes were handed over, then the iterable raised
+            sent = res[3].decode('utf8', 'replace')
+            if res[4] is not raised:
+                sent = '<the response iterable raised %s, not what user code raised>' % type(res[4]).__name__
+            obs, wire = '(Ok (%s, (WPartial %s)))' % (gz(status_number(res[1])), gtext(sent)), None
         else:
             body = res[3]
             try:
@@ -786,8 +826,10 @@ class Runner(object):
                 obs = '(Ok (%s, %s))' % (gz(status_number(res[1])), gwire(wire))
             else:
                 obs = '(Ok %s)' % gwire(wire)
-        term = '(%s, %s, %s)' % (pname, u, obs)
-        (self.wsgi_cases if tr == 'wsgi' else self.server_cases).append((term, desc))
+        if tr == 'wsgi':
+            self.wsgi_cases.append(('(%s, %s, %s, %s)' % (pname, lib.gbool(chunked), u, obs), desc))
+        else:
+            self.server_cases.append(('(%s, %s, %s)' % (pname, u, obs), desc))
         # the Coq decoders against the Python ones, on the real document
         if wire is not None and wire[0] != 'ret' and kind != 'none':
             self.dec_cases.append(('(%s, %s, %s)' % (pname, gwire(wire), gfobs(ref_decode(pname, wire))), desc))
@@ -823,19 +865,21 @@ class Runner(object):
         pname, site, kind, spec, retval = case['prot'], case['site'], case['kind'], case['spec'], case['retval']
         check = self.check
         sc = site_class(site)
+        chunked = case.get('chunked', True)
         replay = {'case': case, 'transport': tr}
 
         def fail(symptom, shape, what):
             key = 'C09|%s|%s|%s|%s|%s' % (pname, tr, sc, symptom, shape)
             # defects whose site does not depend on protocol / transport / raised class get one stable key
-            if sc == 'generator-first-item' and symptom.startswith('escape:'):
-                key = 'C09|wsgi|handle_rpc:next(g)|escape|generator-raises-before-first-item'
-            elif symptom == 'detail-lost':
+            if symptom == 'detail-lost':
                 key = 'C09|PHttpRpc|Fault.to_bytes_iterable|detail-lost'
             elif shape == 'xml-unrepresentable-content' and symptom in ('escape:ValueError', 'escape:UnicodeEncodeError'):
                 key = 'C09|xml-family|lxml-text-check|escape:ValueError|xml-unrepresentable-content'
             elif symptom == 'message-stripped':
                 key = 'C09|PSoap12|loopback|fault_from_element:strip|message-stripped'
+            elif symptom == 'streamed':
+                # (protocol-specific on purpose: only HttpRpc hands generator chunks through)
+                key = 'C09|%s|wsgi|chunked-streaming|raise-after-first-chunk|status-and-chunk-already-sent' % pname
             replay['observed'] = what
             check.fail(key, '%s under %s via %s (%s site): %s' % (symptom, pname, tr, sc, what), dict(replay))
 
@@ -874,7 +918,8 @@ class Runner(object):
                 if code != want_code:
                     return fail('code-changed', shape, 'raised %r, client sees %r' % (want_code, got[0]))
                 if got[1] != e.faultstring:
-                    if got[1] == e.faultstring.strip():
+                    if got[1] == (e.faultstring.strip() or 'Fault'):
+                        # (the client re-builds a plain Fault, whose constructor replaces an empty message by the class name)
                         return fail('message-stripped', 'surrounding-whitespace',
                                     'raised %r, client sees %r' % (e.faultstring, got[1]))
                     return fail('message-changed', shape, 'raised %r, client sees %r' % (e.faultstring, got[1]))
@@ -894,6 +939,14 @@ class Runner(object):
         if res[0] == 'escape':
             return fail('escape:%s' % type(res[1]).__name__, shape,
                         'no response: %r escaped the %s' % (res[1], 'WSGI callable' if tr == 'wsgi' else 'server'))
+        if res[0] == 'partial':
+            if kind == 'exn':
+                self.leak_check(fail, spec, res[3], res[2], [res[1]])
+            if chunked and sc == 'lazy-generator':
+                return fail('streamed', shape, 'status %r and the first chunk %r of the return value were sent, then '
+                            'the response iterable raised %r: nothing is reported' % (res[1], res[3][:80], res[4]))
+            return fail('raised-after-start_response', shape,
+                        'status %r and %r were sent, then the response iterable raised %r' % (res[1], res[3][:80], res[4]))
         status, headers, body = res[1], res[2], res[3]
         if retval.encode('utf8') in body:
             return fail('return-value-sent', shape, 'the return value marker is in the response %r' % body[:200])
@@ -972,8 +1025,10 @@ def make_cases(check):
     scale = 1 if tier == 'quick' else 12
     cases = []
 
-    def add(prot, site, kind, spec, transports, oracle=True):
-        cases.append(({'prot': prot, 'site': site, 'kind': kind, 'spec': spec,
+    def add(prot, site, kind, spec, transports, oracle=True, chunked=None):
+        if chunked is None:
+            chunked = rng.random() < 0.6          # WsgiApplication's default is chunked=True
+        cases.append(({'prot': prot, 'site': site, 'kind': kind, 'spec': spec, 'chunked': chunked,
                        'retval': 'RETVAL' + ''.join(rng.choice('0123456789abcdef') for _ in range(10))},
                       transports, oracle))
 
@@ -986,16 +1041,16 @@ def make_cases(check):
         return tuple(t)
 
     for prot in PROTS:
-        lazy_ok = prot != 'PHttpRpc'
-        sites = EAGER_SITES + (LAZY_SITES if lazy_ok else [])
-        # 0. success path (the model's other branch)
-        add(prot, 'body', 'none', {}, ('wsgi', 'server') + (('loopback',) if prot in LOOP_PROTS else ()), False)
-        if lazy_ok:
-            add(prot, 'gen_later', 'none', {}, ('wsgi',), False)
+        sites = EAGER_SITES + LAZY_SITES
+        # 0. success path (the model's other branch), both ways of serving
+        for ch in (True, False):
+            add(prot, 'body', 'none', {}, ('wsgi', 'server') + (('loopback',) if prot in LOOP_PROTS else ()), False, ch)
+            add(prot, 'gen_later', 'none', {}, ('wsgi', 'server'), False, ch)
         # 1. fixed corpus
         for i, spec in enumerate(fixed_cases()):
             add(prot, sites[i % len(sites)], 'fault', spec, transports_for(prot, i))
         add(prot, 'body', 'fault', {'root': 'Redirect', 'depth': 0, 'natural': True}, ('wsgi',))
+        add(prot, 'gen_first', 'fault', {'root': 'Redirect', 'depth': 0, 'natural': True}, ('wsgi',))
         # 2. generated faults: valid stream, boundary codes, open vocabulary, unrepresentable content
         for i in range(40 * scale):
             add(prot, rng.choice(sites), 'fault', gen_fault_spec(rng, prot, 'valid'), transports_for(prot, i))
@@ -1013,10 +1068,12 @@ def make_cases(check):
             add(prot, sites[i % len(sites)], 'exn', spec, transports_for(prot, i))
         for i in range(16 * scale):
             add(prot, rng.choice(sites), 'exn', gen_exn_spec(rng), transports_for(prot, i))
-        # 4. the generator that raises before its first item (listed finding)
-        if lazy_ok:
-            add(prot, 'gen_first', 'fault', fixed_cases()[1], ('wsgi',))
-            add(prot, 'gen_first', 'exn', gen_exn_spec(rng), ('wsgi',))
+        # 4. both generator sites x both ways of serving x Fault / exception, always (the streamed
+        #    configuration and the first-item repair are decided here)
+        for site in LAZY_SITES:
+            for ch in (True, False):
+                add(prot, site, 'fault', fixed_cases()[1], ('wsgi',), True, ch)
+                add(prot, site, 'exn', gen_exn_spec(rng), ('wsgi',), True, ch)
     return cases
 
 
@@ -1024,15 +1081,18 @@ def non_interference(check, runner):
     """two different exceptions (type, text, site, return value) must give byte-identical responses"""
     rng = check.rng
     for prot in PROTS:
-        sites = EAGER_SITES + ([] if prot == 'PHttpRpc' else LAZY_SITES)
+        sites = EAGER_SITES + LAZY_SITES
         seen = {}
         for i in range(6 if check.tier == 'quick' else 40):
             spec = gen_exn_spec(rng)
             site = rng.choice(sites)
             w = runner.world(prot, 'http')
             w.arm(site, lambda: build_exn(spec), 'RETVAL%d' % rng.randint(0, 10 ** 9))
-            res = w.wsgi('lazy' if site == 'gen_later' else 'plain')
-            check.count(('ni', prot, site, json.dumps(spec, sort_keys=True)))
+            chunked = rng.random() < 0.5
+            if prot == 'PHttpRpc' and site == 'gen_later':
+                chunked = False         # (the streamed configuration is the oracle stream's business)
+            res = w.wsgi(method_for(prot, site), chunked)
+            check.count(('ni', prot, site, chunked, json.dumps(spec, sort_keys=True)))
             if res[0] != 'ok':
                 continue            # reported by the oracle stream
             obs = (res[1], tuple(sorted(res[2])), res[3])
@@ -1044,21 +1104,124 @@ def non_interference(check, runner):
                        {'first': a[1], 'second': b[1], 'responses': [repr(a[0]), repr(b[0])]})
 
 
+def scalar_detail(check, runner):
+    """oracle only (not modelled in Coq): detail leaves that are numbers or booleans - 0, 0.0 and False
+    included - arrive as their value (JSON family) or as its text form (XML family), at any depth and
+    inside lists; nothing is dropped or emptied"""
+    from spyne.model.fault import Fault
+    from lxml import etree
+    rng = check.rng
+    leaves = [0, 1, -5, 10 ** 20, 0.0, 1.5, False, True]
+    def mk(depth):
+        d = {}
+        for k in rng.sample(['a', 'b', 'key', 'K9', 'some', 'x1'], rng.randint(1, 3)):
+            r = rng.random()
+            if depth > 0 and r < 0.3:
+                d[k] = mk(depth - 1)
+            elif r < 0.45:
+                d[k] = [rng.choice(leaves), rng.choice(leaves)]
+            else:
+                d[k] = rng.choice(leaves)
+        return d
+    def flat_expected(d, xml):
+        out = []
+        for k in sorted(d):
+            v = d[k]
+            if isinstance(v, dict):
+                out.append((k, flat_expected(v, xml)))
+            elif isinstance(v, list):
+                out.append((k, [str(x) if xml else x for x in v]))
+            else:
+                out.append((k, str(v) if xml else v))
+        return out
+    def flat_xml(el):
+        groups = {}
+        order = []
+        for ch in el:
+            k = etree.QName(ch).localname
+            val = flat_xml(ch) if len(ch) else (ch.text or '')
+            if k not in groups:
+                order.append(k)
+            groups.setdefault(k, []).append(val)
+        return [(k, groups[k][0] if len(groups[k]) == 1 else groups[k]) for k in sorted(order)]
+    def flat_doc(d):
+        return [(k, flat_doc(d[k]) if isinstance(d[k], dict) else d[k]) for k in sorted(d)]
+    details = [{'a': 0}, {'a': False}, {'a': 0.0}, {'a': {'b': 0, 'key': False}}, {'a': [0, 1]}, {'a': 7, 'b': True}]
+    details += [mk(2) for _ in range(6 if check.tier == 'quick' else 60)]
+    for prot in ('PSoap11', 'PSoap12', 'PXml', 'PJson', 'PYaml', 'PMsgpack'):
+        xml = prot in XML_PROTS
+        for det in details:
+            w = runner.world(prot, 'http')
+            w.arm('body', lambda: Fault('Client.Scalar', 'scalar detail', detail=det), 'RETVAL')
+            res = w.wsgi('plain', rng.random() < 0.5)
+            check.count(('scalar-detail', prot, json.dumps(det, sort_keys=True)))
+            rp = {'protocol': prot, 'detail': det}
+            if res[0] == 'escape' and prot == 'PMsgpack' and type(res[1]).__name__ == 'OverflowError' \
+                    and '100000000000000000000' in json.dumps(det):
+                # msgpack has no integer beyond 64 bits: unrepresentable content, like NUL under XML
+                check.fail('C09|PMsgpack|msgpack-int-range|escape:OverflowError|detail-int-beyond-64-bit',
+                           'a Fault whose detail holds the integer 10**20 cannot be packed: OverflowError escapes '
+                           'handle_error before start_response', rp)
+                continue
+            if res[0] != 'ok':
+                check.fail('C09|%s|wsgi|scalar-detail|no-response' % prot,
+                           'a Fault whose detail holds number/boolean leaves %r was not reported: %r' % (det, res[:2]), rp)
+                continue
+            body = res[3]
+            try:
+                if xml:
+                    root = etree.fromstring(body)
+                    dets = [e for e in root.iter() if isinstance(e.tag, str) and etree.QName(e).localname.lower() == 'detail']
+                    got = flat_xml(dets[0]) if dets else None
+                else:
+                    doc = (json.loads(body.decode('utf8')) if prot == 'PJson' else
+                           __import__('yaml').safe_load(body) if prot == 'PYaml' else
+                           __import__('msgpack').unpackb(body, raw=False))
+                    def find(x):
+                        if isinstance(x, dict):
+                            if 'detail' in x:
+                                return x['detail']
+                            for v in x.values():
+                                r = find(v)
+                                if r is not None:
+                                    return r
+                        if isinstance(x, list):
+                            for v in x:
+                                r = find(v)
+                                if r is not None:
+                                    return r
+                        return None
+                    dd = find(doc)
+                    got = flat_doc(dd) if isinstance(dd, dict) else None
+            except Exception as e:
+                got = 'unreadable: %r' % e
+            want = flat_expected(det, xml)
+            if got != want:
+                check.fail('C09|%s|wsgi|scalar-detail|detail-changed' % prot,
+                           'raised detail %r, the wire carries %r (expected %r)' % (det, got, want), rp)
+    check.sample({'family': 'scalar detail leaves (oracle only)', 'details': details[:4]})
+
+
 def run(check):
     check.rule = ('per output protocol (8): fixed corpus of boundary faults + seeded generated faults (valid codes with '
                   'arbitrary dotted sub-codes, boundary codes around the Client test, open-vocabulary first segments, '
                   'XML-unrepresentable content) and 17 kinds of non-Fault exceptions carrying random tokens, raised '
                   'from 5 eager sites (method body, method_call / method_return_object listeners on application and '
-                  'service) and 2 lazy generator sites; each case runs through WsgiApplication and, for a subset, '
-                  'ServerBase and the loopback client; a case is distinct by (transport, protocol, site, raised object)')
+                  'service) and 2 generator sites (before the first item, after it; an Iterable(Unicode) result, for '
+                  'HttpRpc a generator-valued ByteArray); each case runs through a WsgiApplication served chunked or '
+                  'unchunked (seeded choice; both for the generator sites) and, for a subset, ServerBase and the '
+                  'loopback client; a case is distinct by (transport, protocol, site, chunked, raised object)')
     check.trusted = list(lib.COMMON_TRUSTED) + [
         'translator harness/translate/faultpipe.py (error.py class table, fault_to_http_response_code chains, '
-        'get_fault_string_from_exception, the try/except skeleton of process_request -> Gen/FaultTables.v)',
+        'get_fault_string_from_exception, the try/except skeleton of process_request, the except clauses around '
+        'next(g) and get_out_string in WsgiApplication.handle_rpc, where the unchunked join and the 200 default sit, '
+        'the status rule of handle_error -> Gen/FaultTables.v)',
         'modelled, not verified: lxml (E-factory text/tag validation, tostring/fromstring), json, PyYAML, msgpack '
         'turn the modelled documents into bytes and back; the harness parses the real response bytes with the same '
         'libraries into the model\'s document types before comparing',
-        'hand-written and tied only by the correspondence: handle_rpc/handle_error of server/wsgi.py, the fault '
-        'serialisers/parsers of xml.py, soap12.py, model/fault.py, util/etreeconv.py',
+        'hand-written and tied only by the correspondence: the control flow of handle_rpc/handle_error around the '
+        'generated tables, which protocols serialise a generator result lazily (Model.lazy_out: HttpRpc only), the '
+        'fault serialisers/parsers of xml.py, soap12.py, model/fault.py, util/etreeconv.py',
         'equality notions of the property as encoded in Model.expected_obs and the Python oracle: QName prefix of a '
         'SOAP fault code ignored, Sender/Receiver = Client/Server under SOAP 1.2, and None = "" = {} inside a detail '
         'carried as XML (all three are an empty element)',
@@ -1074,10 +1237,14 @@ def run(check):
         'XML element names of detail keys: theorem guard is the ASCII NCName subset; non-ASCII names are accepted by '
         'lxml but not generated for XML protocols',
         'SOAP 1.2: first code segment is Client or Server (closed vocabulary, anything else is TypeError by design)',
+        'output protocols outside the eight modelled ones (HtmlMicroFormat, cloth, csv, ...) and the other transports '
+        '(twisted, django, zeromq, NullServer) are not covered',
+        'no auxiliary (aux) method contexts: process_contexts has nothing to do',
     ]
     check.regen(['faultpipe'])
     check.check_sources()
-    check.prove('Props.C09', THEOREMS)
+    # (Obs.vo is a target of its own: the correspondence must still run when a proof no longer checks)
+    check.prove('Props.C09', THEOREMS, targets=['C09/Obs.vo', 'Props/C09.vo'])
     lib.ensure_repo_on_path()
     runner = Runner(check)
     for case, transports, oracle in make_cases(check):
@@ -1085,8 +1252,10 @@ def run(check):
         if len(check.samples) < 10 and case['kind'] != 'none' and check.rng.random() < 0.02:
             check.sample({'protocol': case['prot'], 'site': case['site'], 'kind': case['kind'], 'spec': case['spec']})
     non_interference(check, runner)
-    lib.correspond(check, 'wsgi_response', IMPORTS, 'prot * ucode * out (Z * wire)', 'wsgi_ok', runner.wsgi_cases,
-                   show='(fun c : prot * ucode * out (Z * wire) => handle_rpc (fst (fst c)) (snd (fst c)))')
+    scalar_detail(check, runner)
+    lib.correspond(check, 'wsgi_response', IMPORTS, 'prot * bool * ucode * out (Z * wire)', 'wsgi_ok', runner.wsgi_cases,
+                   show='(fun c : prot * bool * ucode * out (Z * wire) => '
+                        'handle_rpc (fst (fst (fst c))) (snd (fst (fst c))) (snd (fst c)))')
     lib.correspond(check, 'server_response', IMPORTS, 'prot * ucode * out wire', 'server_ok', runner.server_cases,
                    show='(fun c : prot * ucode * out wire => server_out (fst (fst c)) (snd (fst c)))')
     lib.correspond(check, 'reference_decoder', IMPORTS, 'prot * wire * option fobs', 'dec_ok', runner.dec_cases,
